@@ -389,6 +389,17 @@ def judge_c13(run, observations):
             want = oracles.fcfs_ref(n, pairs)
             if structure != want:
                 out.append(_violation(k, "fcfs-when-not-delivered", want, structure))
+        elif not all(s.get("delivered") for s in obs["solves"]) and not any(
+                s.get("incumbent") == "suboptimal" for s in obs["solves"]):
+            # the solver was asked more than once within the request and failed at least once (a retry, a request solved
+            # in parts, a consumer that converts several structures): the answer is first-come-first-served, or - the
+            # failure having been made good - an optimal one; never something in between.  (Not judged when one of the
+            # solves handed over an unrequested incumbent that pulp labels Optimal: that answer is neither, legitimately.)
+            want = oracles.fcfs_ref(n, pairs)
+            if structure != want:
+                best, _ = optimum_cached(pairs)
+                if best is not None and oracles.objective(structure) != best:
+                    out.append(_violation(k, "fcfs-or-optimal-when-partly-delivered", want, structure))
         cons = obs.get("consumer")
         if cons and "strands" in cons:
             for first, last, sseq, sstr in cons["strands"]:
